@@ -271,6 +271,22 @@ def gen_case(rng, tier, g):
 
 
 def _gen_case(rng, tier, g):
+    case = _gen_case_(rng, tier, g)
+    if rng.random() < 0.025:
+        # a long table with long runs of consecutive failing rows (not every
+        # subset: the listed runs only): whatever handling a failure costs
+        # - a stack frame, a retry - is paid a thousand times in a row
+        n = rng.choice([1100, 1500, 2600])
+        lo = rng.choice([0, 0, 1, 40])
+        hi = rng.choice([n, n, n - 1, n - 40])
+        case['n'] = n
+        case['where'] = [rng.random() < 0.9 for _ in range(n)]
+        case['failsets'] = [[lo, hi, rng.choice([1, 2])], [0, 0, 1]]
+        case['consumers'] = 1
+    return case
+
+
+def _gen_case_(rng, tier, g):
     form = FORMS[g % len(FORMS)]
     nmax = 3 if form in TWO_FIELD else 6
     n = rng.randint(0, nmax)
@@ -713,6 +729,20 @@ def _run_view(view, consumers):
     return list(zip(out_rows, out_exc))
 
 
+def _subsets(case, points):
+    """Every subset of the fault points; or, for a long table, the listed
+    runs of consecutive failing rows only."""
+    if case.get('failsets'):
+        fields = sorted(set(f for _, f in points))
+        for lo, hi, nf in case['failsets']:
+            yield set((r, f) for r in range(lo, min(hi, case['n']))
+                      for f in fields[:nf])
+        return
+    for k in range(len(points) + 1):
+        for sub in itertools.combinations(points, k):
+            yield set(sub)
+
+
 def run_case(case):
     e = load_petl()
     import petl.config as config
@@ -757,9 +787,8 @@ def run_case(case):
                 del d
             except Exception:
                 pass
-        for k in range(len(points) + 1):
-            for sub in itertools.combinations(points, k):
-                fail = set(sub)
+        for _once in (1,):
+            for fail in _subsets(case, points):
                 if natural:
                     tbl = _table(case, _natural_cells(case, fail))
                 else:
@@ -883,6 +912,11 @@ def warmup():
 
 def shrink_candidates(case):
     import copy
+    if case['n'] > 20:
+        c = copy.deepcopy(case)
+        c['n'] //= 2
+        c['where'] = c['where'][:c['n']]
+        yield c
     if case['n'] > 0:
         c = copy.deepcopy(case)
         c['n'] -= 1
